@@ -61,8 +61,59 @@ func decodeSeq(b []byte) string {
 }
 
 type c16Out struct {
-	recs []c16Rec
-	err  error
+	recs    []c16Rec
+	err     error
+	badCode string // a raw code that the requested gap mode cannot produce
+}
+
+// c16Prime reads a small gap-containing alignment with hardGaps=true through the three encoding
+// readers. The readers are functions of their arguments: an earlier call in the other gap mode
+// must not change what a later call returns (checked on the judged calls that follow).
+func c16Prime() string {
+	data := []byte(">p1\nA-CG-T\n>p2\n--ACGT\n")
+	for k := 0; k < 2; k++ {
+		ch := make(chan fastaio.EncodedFastaRecord)
+		cErr := make(chan error)
+		cDone := make(chan bool)
+		if k == 0 {
+			go fastaio.ReadEncodeAlignment(bytes.NewReader(data), true, ch, cErr, cDone)
+		} else {
+			go fastaio.ReadEncodeScoreAlignment(bytes.NewReader(data), true, ch, cErr, cDone)
+		}
+		done := false
+		for !done {
+			select {
+			case r := <-ch:
+				for i, c := range r.Seq {
+					if (c == 244) || (c == 4) != ("A-CG-T--ACGT"[6*r.Idx+i] == '-') {
+						return fmt.Sprintf("hardGaps=true read of %s gave code %d at column %d", r.ID, c, i)
+					}
+				}
+			case <-cErr:
+				done = true
+			case <-cDone:
+				done = true
+			}
+		}
+	}
+	rs, _ := fastaio.ReadEncodeAlignmentToList(bytes.NewReader(data), true)
+	for _, r := range rs {
+		for i, c := range r.Seq {
+			if c == 244 {
+				return fmt.Sprintf("hardGaps=true list read of %s gave the soft gap code at column %d", r.ID, i)
+			}
+		}
+	}
+	return ""
+}
+
+func softCodes(seq []byte) string {
+	for i, c := range seq {
+		if c == 4 {
+			return fmt.Sprintf("hardGaps=false read returned the hard-gap code 4 at column %d", i)
+		}
+	}
+	return ""
 }
 
 func c16Plain(data []byte) c16Out {
@@ -97,6 +148,9 @@ func c16Enc(data []byte, score bool) c16Out {
 	for {
 		select {
 		case r := <-ch:
+			if o.badCode == "" {
+				o.badCode = softCodes(r.Seq)
+			}
 			o.recs = append(o.recs, c16Rec{ID: r.ID, Desc: r.Description, Seq: decodeSeq(r.Seq), Idx: r.Idx, Score: r.Score, A: r.Count_A, C: r.Count_C, G: r.Count_G, T: r.Count_T})
 		case e := <-cErr:
 			o.err = e
@@ -112,6 +166,9 @@ func c16List(data []byte) c16Out {
 	var o c16Out
 	o.err = err
 	for _, r := range rs {
+		if o.badCode == "" {
+			o.badCode = softCodes(r.Seq)
+		}
 		o.recs = append(o.recs, c16Rec{ID: r.ID, Desc: r.Description, Seq: decodeSeq(r.Seq), Idx: r.Idx})
 	}
 	return o
@@ -231,7 +288,19 @@ func runC16(c *fw.Ctx, idx int) fw.Result {
 	readers := []string{"ReadAlignment", "ReadEncodeAlignment", "ReadEncodeScoreAlignment", "ReadEncodeAlignmentToList"}
 	runAll := func(data []byte) []c16Out {
 		res.Evals += 4
-		return []c16Out{c16Plain(data), c16Enc(data, false), c16Enc(data, true), c16List(data)}
+		if r.Chance(0.3) {
+			res.Count("reads_after_a_hard_gap_read", 1)
+			if msg := c16Prime(); msg != "" {
+				res.Fail("gap-mode", msg, nil, nil)
+			}
+		}
+		outs := []c16Out{c16Plain(data), c16Enc(data, false), c16Enc(data, true), c16List(data)}
+		for ri, o := range outs {
+			if o.badCode != "" {
+				res.Fail("gap-mode:call-history", fmt.Sprintf("%s: %s (an earlier hardGaps=true read in the same process changed the result)", readers[ri], o.badCode), map[string]string{"input.fasta": clipStr(string(data), 100000)}, nil)
+			}
+		}
+		return outs
 	}
 	switch kind {
 	case "layout":
